@@ -509,6 +509,11 @@ def main(chk):
     for layout in ((('a', 'a', 'b'),), (('a', 'a', 'b'), ('a', 'b', 'a'))):
         tasks.append((o4_host_lookup, (prog, layout)))
     chk.parallel(_dispatch, tasks)
+    # bans are keyed by the addresses of the pool that issued them: a pool re-created by a reload starts with an empty ban list of its own shape
+    # (the from_config rebuild obligation of C14, instantiated for this property)
+    import checks.c14 as c14mod
+    for variant in ('grow', 'swap'):
+        c14mod.o2_rebuild(chk, prog, variant, props=('C07',))
     # the client loop's side: a replica that times out a statement is banned, whatever has become of the client (Client::handle executed)
     from checks import hobl
     hobl.handle_obligations(chk, chk.program('on'), {'C07'}, ['failover'])
